@@ -468,10 +468,10 @@ func (c *c16) evalTree() {
 func (c *c16) listCells() {
 	r := c.r
 	r.Case = "list"
-	kind := r.Choose(10, "listKind")
+	kind := r.Choose(11, "listKind")
 	n := r.Range(1, 6, "listLen")
 	c.stallN = r.Choose(3, "stalls")
-	names := [...]string{"fp.MakeList", "list.Generate", "list.GenerateFrom", "list.Recurrence1", "list.Recurrence2", "list.Map", "list.Zip", "list.Scan", "list.Collect", "iterator.ToList"}
+	names := [...]string{"fp.MakeList", "list.Generate", "list.GenerateFrom", "list.Recurrence1", "list.Recurrence2", "list.Map", "list.Zip", "list.Scan", "list.Collect", "iterator.ToList", "list.FlatMap"}
 	r.MixFingerprintS(names[kind])
 	r.MixFingerprint(uint64(n))
 	want := make([]int, n)
@@ -489,6 +489,24 @@ func (c *c16) listCells() {
 		return v
 	}
 	switch kind {
+	case 10:
+		// list.FlatMap applies fn to the head element of the list it was given inside one deferred computation shared by
+		// the head and the tail cell of the result. (The sub-lists FlatMap(tail, fn) are re-instantiated by design, so
+		// only the application to the FIRST element is a single deferred computation instance.)
+		first := c.counter("fn(first element)")
+		base := make([]int, n)
+		want = want[:0]
+		for i := range base {
+			base[i] = 10 + i
+			want = append(want, base[i], base[i]+100)
+		}
+		l = list.FlatMap(list.Of(base...), func(v int) fp.List[int] {
+			r.Gate("fn")
+			if v == base[0] {
+				counted(first, 0)
+			}
+			return list.Of(v, v+100)
+		})
 	case 0:
 		hk, tk := per("head"), per("tail")
 		var mk func(i int) fp.List[int]
